@@ -592,8 +592,9 @@ pub fn build_node(it: &J) -> P {
         "any" => {
             // escape hatch: consumes items that start with `@` (or with the given prefix, e.g. `-D` for `-Dname=value`)
             let prefix: &'static str = if s(it, "prefix").is_empty() { "@" } else { leak(s(it, "prefix")) };
+            let all = b(it, "any_all");      // a catch-all: every item passes the check
             let a = any::<OsString, _, _>(metavar(it), move |x: OsString| {
-                if x.to_string_lossy().starts_with(prefix) {
+                if all || x.to_string_lossy().starts_with(prefix) {
                     Some(x)
                 } else {
                     None
